@@ -25,7 +25,7 @@ TECH = "deterministic simulation at the libc seam (LD_PRELOAD plan-driven shim),
 
 CHECKS = {
     "C01": ("exploration",
-            "Seeded search over (tree incl. device nodes, path-syntax-like and non-UTF-8 names, root list spelled default/relative/./relative/absolute/nested/./../other from inside a root, depth window, bfs/dfs) x environment (arrival order of every directory stream, DT_UNKNOWN, inode renumbering incl. a colliding second device, hash seed); "
+            "Seeded search over (tree incl. device nodes, path-syntax-like and non-UTF-8 names, root list spelled default/relative/./relative/absolute/nested/./../other from inside a root or as a pattern (`rx`), depth window, bfs/dfs, `archives`/ignore options that must change nothing, rows read through list/csv/json) x environment (arrival order of every directory stream, DT_UNKNOWN, inode renumbering incl. a colliding second device, hash seed); "
             "the whole real binary runs; oracle = reference walk + bfs/dfs order clauses over the recorded row history; both traversal modes per case.",
             "No faults here (C17). " + TRUST, "DESIGN.md section 5 C01"),
     "C04": ("exploration",
@@ -40,8 +40,8 @@ CHECKS = {
             "keys incl. 64-bit answers within one f64 ulp, DST-hour mtimes, numeric functions of dates; oracle = conservation against fselect's own unordered run + pairwise sortedness under the documented typing over fselect's own key values (exact integers).",
             TRUST, "DESIGN.md section 5 C05"),
     "C06": ("exploration",
-            "Per (world, query, E): one unlimited run (M rows), then limit N for EVERY N in 0..M+2 under two different arrival orders; filtered/ordered/multi-root/bfs/dfs/archives; "
-            "oracle relational to fselect's own unlimited run (count, sub-multiset, first-N keys).",
+            "Per (world, query, E): one unlimited run (M rows, cross-checked against count(*)), then limit N for EVERY N in 0..M+2 under two different arrival orders; filtered/ordered/multi-root/bfs/dfs/archives, "
+            "15% of the campaigns with entries whose lstat fails in every run, limits also counted through json/csv/html/lines/tabs; oracle relational to fselect's own unlimited run (count, sub-multiset, first-N keys).",
             "Exhaustive in N per sampled case only. " + TRUST, "DESIGN.md section 5 C06"),
     "C08": ("exploration",
             "Partitions live in a HashMap with RandomState: the shim owns getrandom, so each case is run under several hash seeds and arrival orders; oracle = one row per distinct key, conservation of COUNT/SUM against the ungrouped query, "
